@@ -21,7 +21,8 @@ RULE = ("1-3 layers x 1-2 documents of map-rooted trees over printable strings, 
         "overrides, $repeat counts); every assignment of JSON/YAML/TOML to the layers (3^n) must give the same status and bytes; the typed dump "
         "after loading must contain only canonical Go types and equal the generating trees; YAML anchors/merge keys and TOML tables/dotted keys "
         "against their expanded form; generated yaml.v3 node trees (1-3 anchored nodes, aliases, merge keys: alias / list of aliases / inline map / rejected "
-        "scalar sources, at any position among the entries; scalars of every tag, odd keys) loaded vs Model.Yaml; non-trivial = a number is compared or carried across formats; distinct by hash")
+        "scalar sources, at any position among the entries; scalars of every tag, odd keys) loaded vs Model.Yaml; 2-3 document streams with the boundary spelled bare / with blanks / with a comment / CRLF / ... end markers / "
+        "leading / content on the marker line; non-trivial = a number is compared or carried across formats; distinct by hash")
 
 NUMS = [0, 1, 2, -1, 7, 2147483647, 2147483648, -2147483648, -2147483649, 9007199254740993, 9223372036854775807, -9223372036854775807,
         F("0.1"), F("1e-07"), F("1e+21"), F("5e-324"), F("1.7976931348623157e+308"), F("0.5"), F("-2.25"), F("123456.789"),
@@ -114,6 +115,36 @@ def yaml_merge_cases(rng, n):
         merged.update(local)
         tree = {"a": a, "b": b, "svc": merged}
         out.append((text, gen.drop_nulls(tree)))
+    return out
+
+
+def yaml_stream_spellings(rng, n):
+    """one stream of 2-3 map documents written as YAML with every standard spelling of the document boundary:
+    a bare ---, trailing blanks, a trailing comment, CRLF line ends, a leading --- , an explicit end marker (...),
+    the next document's content starting on the marker line; each with the stream it denotes"""
+    out = []
+    seps = [("bare", "---\n"), ("blank", "--- \n"), ("blanks", "---   \n"), ("comment", "--- # next\n"), ("end_marker", "...\n---\n"),
+            ("end_comment", "... # done\n---\n")]
+    for i in range(n):
+        docs = [{k: rng.pick([1, "s", True, "x y", 7]) for k in rng.shuffle(["p", "q", "r"])[: 1 + rng.below(2)]} for _ in range(2 + rng.below(2))]
+        def body(d):
+            return "".join("%s: %s\n" % (k, gen._json_tok(v)) for k, v in sorted(d.items()))
+        kind = rng.pick(["sep", "sep", "crlf", "inline", "leading", "mixed"])
+        if kind == "sep":
+            name, sep = rng.pick(seps)
+            text = sep.join(body(d) for d in docs)
+        elif kind == "crlf":
+            name, text = "crlf", "---\n".join(body(d) for d in docs).replace("\n", "\r\n")
+        elif kind == "inline":
+            name = "content_on_marker_line"
+            text = body(docs[0]) + "".join("--- " + gen._json_tok(d) + "\n" for d in docs[1:])
+        elif kind == "leading":
+            name, sep = rng.pick(seps[:4])
+            text = sep + sep.join(body(d) for d in docs)
+        else:
+            name = "mixed"
+            text = body(docs[0]) + "".join(rng.pick(seps)[1] + body(d) for d in docs[1:])
+        out.append((name, text, docs))
     return out
 
 
@@ -243,8 +274,27 @@ def run(ctx):
             ctx.violations.append({"name": "ymerge-" + core.vhash(text), "property": "C04", "kind": "failing-input",
                                    "why": "YAML with anchors/merge keys does not evaluate to its expanded form: rc=%d %s got %s want %s" % (rc, err[-150:], hist.short(got), hist.short([tree])),
                                    "yaml": text, "class": "c04-format-dependence"})
+    # every standard spelling of a YAML document boundary denotes the same stream
+    scases = yaml_stream_spellings(rng.fork("ystream"), 60 if ctx.tier == "quick" else 1500)
+    for si, (name, text, docs) in enumerate(scases):
+        open(os.path.join(d, "ys%d.yaml" % si), "wb").write(text.encode("utf-8"))
+    sres = core.pmap(lambda si: core.cli(os.path.join(ctx.bindir, "bkl"), ["-f", "json", "ys%d.yaml" % si], d), range(len(scases)))
+    for (name, text, docs), (rc, out, err) in zip(scases, sres):
+        dist["ystream_" + name] = dist.get("ystream_" + name, 0) + 1
+        got = core.parse_json_docs(out.decode("utf-8", "replace")) if rc == 0 else None
+        if not (rc == 0 and veq(got, docs)) and len([v for v in ctx.violations if v.get("class") == "c04-yaml-stream-boundary"]) < 2:
+            ref = None
+            try:
+                import yaml
+                ref = list(yaml.safe_load_all(text))
+            except Exception:
+                pass
+            ctx.violations.append({"name": "ystream-" + core.vhash(text), "property": "C04", "kind": "failing-input",
+                                   "why": "a YAML stream of %d documents (boundary spelling: %s) does not evaluate to those documents: rc=%d %s got %s; PyYAML reads %s"
+                                          % (len(docs), name, rc, err[-150:], hist.short(got), hist.short(ref)),
+                                   "yaml": text, "boundary": name, "class": "c04-yaml-stream-boundary"})
     ny = ynode_pass(ctx, rng.fork("ynodes"), 150 if ctx.tier == "quick" else 4000, dist)
-    return {"evaluations": len(jobs) * 2 + len(ycases) + ny, "distinct_nontrivial": nt, "rule": RULE, "samples": [core.to_jsonable(c) for c in contents[:1]],
+    return {"evaluations": len(jobs) * 2 + len(ycases) + len(scases) + ny, "distinct_nontrivial": nt, "rule": RULE, "samples": [core.to_jsonable(c) for c in contents[:1]],
             "distribution": dist, "disagreements_checked": len(ctx.violations)}
 
 
